@@ -323,6 +323,57 @@ impl Check for C18 {
             Tier::Thorough => vec![("semantic", 15_000_000, 300), ("concrete", 15_000_000, 300), ("compiled", 600_000, 400)],
         }
     }
+    fn extra(&self, _tier: Tier, st: &mut crate::runner::Stats, _known: &dyn Fn(&str) -> bool, _threads: usize) -> Result<serde_json::Value, Failure> {
+        // deterministic table for the mixed-time-lock check: every pair of lock values from a
+        // list with both units, BIP68-ignored bits and boundary values, as a concrete policy, and
+        // as a miniscript with the second lock under every wrapper that can carry it
+        use miniscript::policy::Liftable;
+        let olders: [u32; 9] = [1, 5, 0xffff, 0x40_0001, 0x40_ffff, 0x80_0005, 0xc0_0005, 0x1_0005, 0x7fbf_0003];
+        let afters: [u32; 6] = [1, 499_999_999, 500_000_000, 500_000_001, 0x7fff_ffff, 65_536];
+        let rel_time = |v: u32| v & 0x40_0000 != 0;
+        let abs_time = |v: u32| v >= 500_000_000;
+        let wraps = ["a:", "adv:", "al:", "au:", "an:", "atv:"];
+        let mut n = 0u64;
+        for (name, vals, is_time) in [("older", &olders[..], &rel_time as &dyn Fn(u32) -> bool), ("after", &afters[..], &abs_time as &dyn Fn(u32) -> bool)] {
+            for a in vals {
+                for b2 in vals {
+                    let want = is_time(*a) != is_time(*b2);
+                    let ptext = format!("and(pk(A),and({}({}),{}({})))", name, a, name, b2);
+                    if let Ok(c) = Concrete::<String>::from_str(&ptext) {
+                        n += 1;
+                        if c.check_timelocks().is_err() != want {
+                            return fail(&format!("check-timelocks/{}", if want { "false-negative" } else { "false-positive" }), format!("check_timelocks() of {} says mixed={}, the units {}", ptext, !want, if want { "differ" } else { "agree" }));
+                        }
+                        if c.lift().is_err() != want {
+                            return fail(if want { "concrete-lift-mixed" } else { "concrete-lift-refused" }, format!("lift() of {} is {}", ptext, if want { "Ok although the units differ" } else { "refused although the units agree" }));
+                        }
+                    }
+                    for w in wraps.iter() {
+                        let mtext = format!("and_b({}({}),{}{}({}))", name, a, w, name, b2);
+                        if let Ok(ms) = miniscript::Miniscript::<String, miniscript::Segwitv0>::from_str_insane(&mtext) {
+                            n += 1;
+                            if ms.has_mixed_timelocks() != want {
+                                return fail(&format!("ms-mixed-timelocks/{}", if want { "false-negative" } else { "false-positive" }), format!("has_mixed_timelocks() = {} for {}", !want, mtext));
+                            }
+                            if ms.lift().is_err() != want {
+                                return fail(if want { "ms-lift-mixed" } else { "ms-lift-refused" }, format!("lift() of {} is {}", mtext, if want { "Ok although a path mixes units" } else { "refused although no path mixes units" }));
+                            }
+                        }
+                    }
+                    // alternatives never mix
+                    let otext = format!("or(and(pk(A),{}({})),and(pk(B),{}({})))", name, a, name, b2);
+                    if let Ok(c) = Concrete::<String>::from_str(&otext) {
+                        n += 1;
+                        if c.check_timelocks().is_err() {
+                            return fail("check-timelocks/false-positive", format!("check_timelocks() refuses {} whose locks sit on different paths", otext));
+                        }
+                    }
+                }
+            }
+        }
+        st.evaluations += n;
+        Ok(serde_json::json!({"mixed_timelock_table_entries": n}))
+    }
     fn run_case(&self, lane: &str, src: &mut Src, rep: &mut Report) -> Result<(), Failure> {
         if lane == "compiled" {
             return compiled_case(src, rep);
